@@ -9,7 +9,7 @@ open Nstd.Server.C13 (Outcome SendRes sendOS)
 /-- outcome of a dispatch / step with respect to returning from run() -/
 def StepRel (s s' : St) (evs : List Ev) : Prop :=
   (∀ i, s.gone i = true → s'.gone i = true) ∧
-  ((s.interrupted = true → 0 < s.eventfd) → (s'.interrupted = true → 0 < s'.eventfd)) ∧
+  ((s.interrupted = true → 0 < s.eventfd + s.pendingEfd) → (s'.interrupted = true → 0 < s'.eventfd + s'.pendingEfd)) ∧
   (s'.pc = s.pc ∨ (s'.pc = .idle ∧ s.interrupted = true ∧ Ev.returned ∈ evs ∧ s'.interrupted = false)) ∧
   (s.interrupted = true → s'.interrupted = true ∨ s'.pc = .idle) ∧
   (Ev.returned ∈ evs → s'.pc = .idle)
@@ -77,14 +77,14 @@ theorem dispatch_rel (s : St) (ev : Option (Id × Flags)) (o : Outcome) :
     run() is left only by consuming a pending interrupt, a pending interrupt is never lost -/
 theorem step_rel (s : St) (inp : PollIn) (o : Outcome) :
     (∀ i, s.gone i = true → (step s inp o).1.gone i = true) ∧
-    ((s.interrupted = true → 0 < s.eventfd) → ((step s inp o).1.interrupted = true → 0 < (step s inp o).1.eventfd)) ∧
+    ((s.interrupted = true → 0 < s.eventfd + s.pendingEfd) → ((step s inp o).1.interrupted = true → 0 < (step s inp o).1.eventfd + (step s inp o).1.pendingEfd)) ∧
     ((step s inp o).1.pc = .idle → s.pc = .idle ∨
       (s.interrupted = true ∧ Ev.returned ∈ (step s inp o).2 ∧ (step s inp o).1.interrupted = false)) ∧
     (s.interrupted = true → (step s inp o).1.interrupted = true ∨ (step s inp o).1.pc = .idle) ∧
     (Ev.returned ∈ (step s inp o).2 → (step s inp o).1.pc = .idle) := by
   have frame : ∀ (r : St × List Ev), Rel s r.1 → s.pc ≠ .idle → Ev.returned ∉ r.2 →
       (∀ i, s.gone i = true → r.1.gone i = true) ∧
-      ((s.interrupted = true → 0 < s.eventfd) → (r.1.interrupted = true → 0 < r.1.eventfd)) ∧
+      ((s.interrupted = true → 0 < s.eventfd + s.pendingEfd) → (r.1.interrupted = true → 0 < r.1.eventfd + r.1.pendingEfd)) ∧
       (r.1.pc = .idle → s.pc = .idle ∨ (s.interrupted = true ∧ Ev.returned ∈ r.2 ∧ r.1.interrupted = false)) ∧
       (s.interrupted = true → r.1.interrupted = true ∨ r.1.pc = .idle) ∧ (Ev.returned ∈ r.2 → r.1.pc = .idle) := by
     intro r h hp hn
@@ -92,7 +92,7 @@ theorem step_rel (s : St) (inp : PollIn) (o : Outcome) :
   -- the program counter moves to a non-idle value, nothing else changes
   have frame2 : ∀ (p : Pc) (r : St × List Ev), r = ({ s with pc := p }, []) → p ≠ .idle →
       (∀ i, s.gone i = true → r.1.gone i = true) ∧
-      ((s.interrupted = true → 0 < s.eventfd) → (r.1.interrupted = true → 0 < r.1.eventfd)) ∧
+      ((s.interrupted = true → 0 < s.eventfd + s.pendingEfd) → (r.1.interrupted = true → 0 < r.1.eventfd + r.1.pendingEfd)) ∧
       (r.1.pc = .idle → s.pc = .idle ∨ (s.interrupted = true ∧ Ev.returned ∈ r.2 ∧ r.1.interrupted = false)) ∧
       (s.interrupted = true → r.1.interrupted = true ∨ r.1.pc = .idle) ∧ (Ev.returned ∈ r.2 → r.1.pc = .idle) := by
     intro p r hr hp
@@ -130,22 +130,23 @@ theorem step_rel (s : St) (inp : PollIn) (o : Outcome) :
   · rename_i now tmo hpc
     have hps : (pollStep s inp).1.gone = s.gone ∧ (pollStep s inp).1.pc = s.pc ∧
         (pollStep s inp).1.interrupted = s.interrupted ∧
-        ((pollStep s inp).1.eventfd = s.eventfd ∨ (pollStep s inp).2 = none) := by
+        ((pollStep s inp).1.eventfd = s.eventfd ∨ (pollStep s inp).2 = none) ∧
+        (pollStep s inp).1.pendingEfd = s.pendingEfd := by
       unfold pollStep
       dsimp only
       repeat' split
       all_goals simp
-    obtain ⟨g1, g2, g3, g4⟩ := hps
+    obtain ⟨g1, g2, g3, g4, g5⟩ := hps
     have hd := dispatch_rel (pollStep s inp).1 (pollStep s inp).2 o
     obtain ⟨d1, d2, d3, d4, d5⟩ := hd
     dsimp only
     generalize hs2 : dispatch (pollStep s inp).1 (pollStep s inp).2 o = r at *
     obtain ⟨s2, evs⟩ := r
     simp only at d1 d2 d3 d4 d5 ⊢
-    have hI : (s.interrupted = true → 0 < s.eventfd) → (s2.interrupted = true → 0 < s2.eventfd) := by
+    have hI : (s.interrupted = true → 0 < s.eventfd + s.pendingEfd) → (s2.interrupted = true → 0 < s2.eventfd + s2.pendingEfd) := by
       intro hinv
       rcases g4 with g4 | g4
-      · exact d2 (by rw [g3, g4]; exact hinv)
+      · exact d2 (by rw [g3, g4, g5]; exact hinv)
       · -- the event descriptor was consumed: the event is `none`
         rw [g4] at hs2
         unfold dispatch at hs2
